@@ -994,6 +994,19 @@ class StmtMixin:
 
     def ex_GoStmt(self, s, st):
         self.trace_event(st, "go", s["Call"])
+        # goroutine accounting (syntactic): does the spawned function literal defer a WaitGroup.Done, and on which
+        # WaitGroup expression?  `go.done:<expr>` / `go.nodone` let a contract state "every goroutine this call
+        # starts is registered on the WaitGroup its owner joins".
+        call = s["Call"]
+        fun = call.get("Fun") or {}
+        done = None
+        if fun.get("k") == "FuncLit":
+            for b in (fun.get("Body") or {}).get("List") or []:
+                if b.get("k") == "DeferStmt":
+                    f2 = (b.get("Call") or {}).get("Fun") or {}
+                    if f2.get("k") == "SelectorExpr" and f2["Sel"]["Name"] == "Done":
+                        done = self.expr_text(f2["X"])
+        self.trace_event(st, "go.done:" + done if done else "go.nodone")
         return st
 
     def ex_SendStmt(self, s, st):
